@@ -46,7 +46,7 @@ def run_job(prop, job, tier, builder, seed, log):
     units = job.get('units', irbuild.PIPELINE)
     known = [k for k in load_known(prop) if re.fullmatch(k.get('job', name), name)]
     tb = time.time()
-    ll = builder.link(prop + '_' + name, job['harness'], units, defines, stubs=job.get('stubs', True), iquote=job.get('iquote', False), support=job.get('support', ()))
+    ll = builder.link(prop + '_' + name, job['harness'], units, defines, stubs=job.get('stubs', True), iquote=job.get('iquote', False), support=job.get('support', ()), stubs_defines=job.get('stubs_defines', ()))
     build_s = time.time() - tb
     lim = dict(job.get('limits', {})); lim.update(job.get(tier, {}).get('limits', {}))
     opts = dict(max_steps=lim.get('max_steps', 20000000), max_depth=lim.get('max_depth', 400), known=known, hooks=tuple(job.get('hooks', ())))
@@ -67,7 +67,7 @@ def run_job(prop, job, tier, builder, seed, log):
     exe = exe_san = None
     if need_native:
         try:
-            exe = builder.native(prop + '_' + name, job['harness'], units, defines, stubs=job.get('stubs', True), iquote=job.get('iquote', False), support=job.get('support', ()))
+            exe = builder.native(prop + '_' + name, job['harness'], units, defines, stubs=job.get('stubs', True), iquote=job.get('iquote', False), support=job.get('support', ()), stubs_defines=job.get('stubs_defines', ()), wrap=job.get('wrap', ()))
         except irbuild.BuildError as e:
             res['status'] = 'internal'; res['messages'].append('native build failed: ' + str(e)[-1500:]); return res
     # engine self-check: same vectors through the natively compiled harness
@@ -89,7 +89,7 @@ def run_job(prop, job, tier, builder, seed, log):
         if not reproduced and is_mem:
             try:
                 if exe_san is None:
-                    exe_san = builder.native(prop + '_' + name, job['harness'], units, defines, stubs=job.get('stubs', True), iquote=job.get('iquote', False), sanitize=True, support=job.get('support', ()))
+                    exe_san = builder.native(prop + '_' + name, job['harness'], units, defines, stubs=job.get('stubs', True), iquote=job.get('iquote', False), sanitize=True, support=job.get('support', ()), stubs_defines=job.get('stubs_defines', ()), wrap=job.get('wrap', ()))
                 n = run_native(exe_san, v['vector'], timeout=120)
                 reproduced = (n['rc'] not in (0, 2, 77, 78)) or not n['done']
             except irbuild.BuildError as e:
@@ -122,7 +122,7 @@ def write_replay(prop, tier, job, entry):
     dig = hashlib.sha1(json.dumps([job['name'], entry['assertion'], entry['vector']]).encode()).hexdigest()[:10]
     path = os.path.join(VERIF, 'replays', '%s-%s-%s.json' % (prop, job['name'], dig))
     json.dump(dict(property=prop, tier=tier, job=job['name'], harness=job['harness'], defines=job_defines(job, tier), units=job.get('units', irbuild.PIPELINE),
-                   stubs=job.get('stubs', True), iquote=job.get('iquote', False), support=list(job.get('support', ())), assertion=entry['assertion'], vector=entry['vector'], notes=entry.get('notes', [])), open(path, 'w'), indent=1)
+                   stubs=job.get('stubs', True), iquote=job.get('iquote', False), support=list(job.get('support', ())), stubs_defines=list(job.get('stubs_defines', ())), wrap=list(job.get('wrap', ())), assertion=entry['assertion'], vector=entry['vector'], notes=entry.get('notes', [])), open(path, 'w'), indent=1)
     return path
 
 def do_replay(path, extra_defines=()):
@@ -130,7 +130,7 @@ def do_replay(path, extra_defines=()):
     scratch = tempfile.mkdtemp(prefix='vreplay_')
     try:
         b = irbuild.Builder(scratch)
-        exe = b.native('replay', r['harness'], r['units'], r['defines'], stubs=r['stubs'], iquote=r['iquote'], support=r.get('support', ()))
+        exe = b.native('replay', r['harness'], r['units'], r['defines'], stubs=r['stubs'], iquote=r['iquote'], support=r.get('support', ()), stubs_defines=r.get('stubs_defines', ()), wrap=r.get('wrap', ()))
         n = run_native(exe, [tuple(x) for x in r['vector']])
         print(n['out'] if not extra_defines else n['full']); print(n['err'], file=sys.stderr)
         if r['assertion'] in n['fails']: print('REPRODUCED: ' + r['assertion']); return 1
